@@ -27,7 +27,7 @@ import json
 
 from harness import core
 
-GEN = []
+GEN = ['CronCfg']
 
 MANIFEST = {
     'level_text': 'Coq theorems over Model/Cron.v (step-granular model: Tick/Read/Adv/Start/Drop/Crash, any number of '
@@ -43,7 +43,7 @@ MANIFEST = {
     'design_ref': '6 C17',
 }
 
-IMPORTS = ['Model.Cron']
+IMPORTS = ['Model.Cron', 'Gen.CronCfg']
 
 BASE = datetime.datetime(2030, 1, 1, 0, 0, 0)
 PROJECTS = ['proj-a', 'proj-b']
@@ -374,6 +374,22 @@ class World:
             return ('drop', i)
         return ('noop', i)
 
+    def probe_lookup(self):
+        """Which row does the real get_cron_trigger(name) return under each trigger's project? (Only asked when
+        names are ambiguous: the answer depends on the order in which the database enumerates rows.)"""
+        m = self.m
+        out = {}
+        for k, t in self.trig.items():
+            m['auth_ctx'].set_ctx(m['auth_ctx'].MistralContext(user_id=None, project_id=t['project'], auth_token=None,
+                                                                is_admin=False))
+            try:
+                out[k] = self.key_of_id.get(m['db_api'].get_cron_trigger(t['name']).id, -1)
+            except Exception:
+                out[k] = -1
+            finally:
+                m['auth_ctx'].set_ctx(None)
+        return out
+
     def db_view(self):
         rows = Env.rows()
         out = {}
@@ -381,3 +397,725 @@ class World:
             k = self.key_of_id.get(r['id'])
             out[k] = (r['next'], r['rem'])
         return out
+
+
+# ---------------------------------------------------------------------------
+# cases
+
+PATTERNS = ['* * * * *', '*/5 * * * *', '*/2 * * * *', '0 * * * *', '30 3 * * *', '0 0 1 * *',
+            '* * * * * */10', '* * * * * *', '15,45 * * * *', '0 12 * * 1', '*/7 * * * * 30']
+T0S = [100000, 86400 * 31 - 30, 3600 * 50 - 5, 86400 * 59 - 61, 7 * 86400 + 43200 - 2, 1234567]
+TICKS_SMALL = [1, 1, 2, 3, 30, 58, 59, 60, 61, 120, 300]
+LAGS = [3600, 86400, 3 * 86400, 40 * 86400]
+
+
+def is_ambiguous(case):
+    """Two triggers share a name and one of them is visible to the other's project."""
+    ts = case['triggers']
+    for a in range(len(ts)):
+        for b in range(a + 1, len(ts)):
+            x, y = ts[a], ts[b]
+            if x['name'] == y['name']:
+                same_proj = (not case['auth']) or x['project'] == y['project']
+                if same_proj or x.get('scope') == 'public' or y.get('scope') == 'public':
+                    return True
+    return False
+
+
+def gen_triggers(rng, auth, t0):
+    n = rng.choice([1, 1, 2, 2, 2, 3, 3])
+    out = []
+    used = set()
+    for k in range(n):
+        for _ in range(20):
+            name = rng.choice(['a', 'b', 'nightly'])
+            proj = rng.randrange(2) if auth else 0
+            if (name, proj) not in used:
+                break
+        else:
+            continue
+        used.add((name, proj))
+        mode = rng.random()
+        pattern = rng.choice(PATTERNS)
+        first = None
+        count = rng.choice([None, None, 1, 1, 2, 3, 5])
+        start = None
+        if mode < 0.25:
+            first = t0 + rng.choice([60, 60, 61, 90, 120, 600, 3600])
+            if rng.random() < 0.6:
+                pattern = None
+                count = rng.choice([None, None, 1, 0])
+        elif mode < 0.45:
+            start = t0 - rng.choice([1, 59, 3600, 86400])      # next time may already be over: due at once, with lag
+        if rng.random() < 0.04 and pattern is not None:
+            count = 0                                            # the service accepts it (REST does not)
+        r = rng.random()
+        if r < 0.03:
+            pattern = rng.choice(BAD_PATTERNS)                   # refused at creation: the trigger never exists
+        elif r < 0.06:
+            first = t0 + rng.choice([0, 30, 59])                 # less than a minute ahead: refused
+        elif r < 0.08 and first is not None and pattern is None:
+            count = rng.choice([2, 3])                           # count > 1 without pattern: refused
+        out.append({'name': name, 'project': proj, 'pattern': pattern, 'first': first, 'count': count, 'start': start,
+                    'input': {'x': k * 7 + 1}, 'params': {} if rng.random() < 0.3 else {'tag': 'p%d' % k},
+                    'scope': 'private'})
+    # public scope only where it keeps names unambiguous
+    for t in out:
+        if auth and rng.random() < 0.25 and sum(1 for u in out if u['name'] == t['name']) == 1:
+            t['scope'] = 'public'
+    return out
+
+
+def gen_case(rng):
+    auth = rng.random() < 0.8
+    t0 = rng.choice(T0S) + rng.choice([0, 0, 1, 17])
+    return {'auth': auth, 't0': t0, 'triggers': gen_triggers(rng, auth, t0), 'nproc': rng.choice([1, 2, 2, 3, 3]),
+            'steps': None, 'len': rng.randrange(12, 46), 'rseed': rng.getrandbits(48)}
+
+
+def choose_step(rng, w, case):
+    """Adaptive schedule generation: look at the real rows to steer the clock towards due times."""
+    view = w.db_view()
+    busy = [i for i, g in w.procs.items() if not g.dead and g.at[0] in ('before_adv', 'before_start')]
+    nexts = [v[0] for v in view.values()]
+    anything_due = any(n < Env.clock + 2 for n in nexts)
+    r = rng.random()
+    if not busy and not anything_due and nexts and r < 0.85:
+        d = min(nexts) - Env.clock + rng.choice([-3, -2, -1, -1, 0, 0, 1, 5, 60])
+        if rng.random() < 0.12:
+            d += rng.choice(LAGS)
+        return ['tick', max(1, d)]
+    if r < 0.78:
+        return ['run', rng.randrange(case['nproc'])]
+    if r < 0.86:
+        return ['tick', rng.choice(TICKS_SMALL if rng.random() < 0.85 else LAGS)]
+    if r < 0.93:
+        return ['crash', rng.choice(busy) if busy and rng.random() < 0.8 else rng.randrange(case['nproc'])]
+    return ['failstart', rng.choice(busy) if busy else rng.randrange(case['nproc'])]
+
+
+def execute(case, rng=None):
+    """Run the case on the real code. Returns the log (and fills case['steps'] when generated adaptively)."""
+    import random
+    if rng is None and case.get('steps') is None:
+        rng = random.Random(case.get('rseed', 0))
+    w = World(case)
+    log = {'created': w.created, 'trig': w.trig, 'steps': [], 'lost': [], 'ambiguous': is_ambiguous(case)}
+    try:
+        log['view0'] = w.db_view()
+        log['lookup'] = w.probe_lookup() if log['ambiguous'] else {}
+        steps = case.get('steps')
+        gen = steps is None
+        if gen:
+            steps = []
+        n = case.get('len', 0) if gen else len(steps)
+        for si in range(n):
+            st = choose_step(rng, w, case) if gen else steps[si]
+            if gen:
+                steps.append(st)
+            # an occurrence is lost when its winner dies / cannot reach the engine before the start
+            if st[0] in ('crash', 'failstart'):
+                g = w.procs.get(st[1])
+                if g is not None and not g.dead and g.at[0] == 'before_start':
+                    t = w.cur.get(st[1])
+                    log['lost'].append((w.key_of_id.get(t.id, -1), sec(t.next_execution_time)))
+            ob = w.step(st)
+            log['steps'].append({'step': list(st), 'obs': ob, 'view': w.db_view(), 'clock': Env.clock})
+        # drain: every live processor finishes its pass (needed by "exactly one start unless crashed")
+        drain = []
+        for i in sorted(w.procs):
+            for _ in range(50):
+                g = w.procs.get(i)
+                if g is None or g.dead or g.at[0] in ('idle', 'pass_end'):
+                    break
+                ob = w.step(['run', i])
+                drain.append(['run', i])
+                log['steps'].append({'step': ['run', i], 'obs': ob, 'view': w.db_view(), 'clock': Env.clock})
+        if gen:
+            case['steps'] = steps + drain
+            case.pop('len', None)
+            case.pop('rseed', None)
+        log['starts'] = list(w.starts)
+    finally:
+        w.close()
+    return log
+
+
+# ---------------------------------------------------------------------------
+# the property oracle (no model involved)
+
+def croniter_next(pattern, t):
+    import croniter
+    return sec(croniter.croniter(pattern, dt(t)).get_next(datetime.datetime))
+
+
+def oracle(ctx, case, log):
+    """The property text, stated on the observed rows / starts of the real run. Returns list of (sig, what)."""
+    fails = []
+
+    def bad(sig, what):
+        fails.append((sig, what))
+    trig = log['trig']
+    starts = log['starts']
+    id2k = {v['id']: k for k, v in trig.items()}
+    # --- context / payload of every start
+    for s in starts:
+        k = id2k.get(s['snap_id'])
+        if k is None:
+            bad('start-unknown-trigger', 'start for unknown trigger %r' % (s,))
+            continue
+        t = trig[k]
+        try:
+            desc = json.loads(s['description'])
+        except Exception:
+            desc = {}
+        tb = desc.get('triggered_by', {}) if isinstance(desc, dict) else {}
+        if s['wf'] != t['wf'] or s['ns'] not in ('', None):
+            bad('context:workflow', 'trigger %d starts workflow %r, its workflow is %r' % (k, s['wf'], t['wf']))
+        if s['input'] != t['input']:
+            bad('context:input', 'trigger %d starts with input %r, its input is %r' % (k, s['input'], t['input']))
+        if s['params'] != t['params']:
+            bad('context:params', 'trigger %d starts with params %r, its params are %r' % (k, s['params'], t['params']))
+        if tb.get('id') != t['id'] or tb.get('type') != 'cron_trigger':
+            bad('context:triggered_by', 'trigger %d start description %r does not name the trigger' % (k, s['description']))
+        c = s['ctx']
+        if c is None:
+            bad('context:none', 'trigger %d started without a security context' % k)
+        elif case['auth']:
+            if c['project'] != t['project']:
+                bad('context:project', 'trigger %d of project %r started under project %r' % (k, t['project'], c['project']))
+            if c['trust'] != t['trust'] or not c['trust_scoped'] or c['is_admin']:
+                bad('context:trust', 'trigger %d (trust %r) started under context %r' % (k, t['trust'], c))
+        if not (s['snap_next'] < s['now'] + 2):
+            bad('early-start', 'trigger %d occurrence %s started at clock %s' % (k, s['snap_next'], s['now']))
+    # --- row histories
+    for k, t in trig.items():
+        hist = [log['view0'].get(k)]
+        consumed = []          # (occurrence, step index)
+        clock_before = case['t0']
+        for si, e in enumerate(log['steps']):
+            prev, cur = hist[-1], e['view'].get(k)
+            if cur != prev:
+                ob = e['obs']
+                if prev is None:
+                    bad('row-reappears', 'trigger %d row reappears at step %d' % (k, si))
+                else:
+                    if not (ob[0] == 'adv' and ob[2] == k and ob[3]):
+                        bad('other-row-modified', 'row of trigger %d changed %r -> %r by step %d %r which does not advance it'
+                            % (k, prev, cur, si, ob))
+                    consumed.append((prev[0], si))
+                    if cur is not None:
+                        if not cur[0] > prev[0]:
+                            bad('next-not-forward', 'trigger %d next %s -> %s' % (k, prev[0], cur[0]))
+                        else:
+                            try:
+                                want = croniter_next(t['pattern'], max(clock_before, prev[0]))
+                            except Exception:
+                                want = None
+                            if want is not None and cur[0] != want:
+                                bad('next-not-pattern', 'trigger %d (%s) next %s -> %s at clock %s, pattern gives %s'
+                                    % (k, t['pattern'], prev[0], cur[0], clock_before, want))
+                        if prev[1] is None:
+                            if cur[1] is not None:
+                                bad('count-changed', 'trigger %d without count gets remaining %r' % (k, cur[1]))
+                        elif prev[1] > 0 and cur[1] != prev[1] - 1:
+                            bad('count-changed', 'trigger %d remaining %r -> %r' % (k, prev[1], cur[1]))
+                    else:
+                        if prev[1] is None or prev[1] > 1:
+                            bad('removed-early', 'trigger %d removed with remaining %r' % (k, prev[1]))
+            hist.append(cur)
+            clock_before = e['clock']
+        occs = [o for o, _ in consumed]
+        my = [s for s in starts if id2k.get(s['snap_id']) == k]
+        lost = [o for kk, o in log['lost'] if kk == k]
+        for o in sorted(set(s['snap_next'] for s in my)):
+            n = sum(1 for s in my if s['snap_next'] == o)
+            if n > 1:
+                bad('double-start', 'trigger %d occurrence %s started %d times' % (k, o, n))
+            if o not in occs:
+                bad('start-without-occurrence', 'trigger %d started for %s but its row never left that time' % (k, o))
+        for o in occs:
+            n = sum(1 for s in my if s['snap_next'] == o)
+            if n == 0 and o not in lost:
+                bad('missing-start', 'trigger %d left occurrence %s without a start and without a crash' % (k, o))
+        if len(set(occs)) != len(occs):
+            bad('occurrence-twice', 'trigger %d consumed an occurrence twice: %r' % (k, occs))
+        c = t['count']
+        first_only = t['first'] is not None and not case['triggers'][k]['pattern'] and c in (None, 0, 1)
+        if first_only:
+            c = 1
+        if c is not None and c >= 1:
+            if len(my) > c or len(occs) > c:
+                bad('count-exceeded', 'trigger %d with count %d: %d starts, %d occurrences' % (k, c, len(my), len(occs)))
+            if hist[-1] is None and len(occs) != c:
+                bad('removed-early', 'trigger %d with count %d removed after %d occurrences' % (k, c, len(occs)))
+            if hist[-1] is not None and len(occs) >= c:
+                bad('not-removed', 'trigger %d with count %d still present after %d occurrences' % (k, c, len(occs)))
+        if c is None and hist[-1] is None:
+            bad('removed-early', 'trigger %d without count was removed' % k)
+        if first_only and any(s['snap_next'] != log['view0'][k][0] for s in my):
+            bad('first-only-refire', 'first-time-only trigger %d fired at %r' % (k, [s['snap_next'] for s in my]))
+    if log['ambiguous'] and fails:
+        # one specific signature for the whole class: same name visible across projects (public scope)
+        return [('same-name-public-trigger', fails[0][1] + ' [%d oracle clauses fail in this case]' % len(fails))]
+    return fails
+
+
+# ---------------------------------------------------------------------------
+# model side
+
+def name_ids(case):
+    ids = {}
+    for t in case['triggers']:
+        ids.setdefault(t['name'], len(ids))
+    return ids
+
+
+def nxt_table(case, log):
+    """croniter's values (through the real triggers.get_next_execution_time) on the closure of the times the
+    case can ask for: clock values and previous results."""
+    Env.boot()
+    gnet = Env.mods['triggers'].get_next_execution_time
+    clocks = sorted({case['t0']} | {e['clock'] for e in log['steps']})
+    tbl = []
+    bad = []
+    for k, t in log['trig'].items():
+        n_adv = sum(1 for e in log['steps'] if e['obs'][0] == 'adv' and e['obs'][2] == k) + 1
+        seen = {}
+        frontier = set(clocks) | {log['view0'][k][0]}
+        for _ in range(n_adv):
+            new = set()
+            for a in frontier:
+                if a in seen:
+                    continue
+                try:
+                    v = sec(gnet(t['pattern'], dt(a)))
+                except Exception:
+                    continue
+                seen[a] = v
+                if not v > a:
+                    bad.append((k, a, v))
+                new.add(v)
+            frontier = new
+        tbl += [(k, a, v) for a, v in sorted(seen.items())]
+    return tbl, bad
+
+
+def coq_create(case, t, nxv):
+    """Coq expression of Model.create for trigger t of the case."""
+    pat = 'None' if not t['pattern'] else ('(Some %s)' % core.coq_bool(t['pattern'] not in BAD_PATTERNS))
+    first = core.coq_option(None if t['first'] is None else core.coq_N(t['first']))
+    count = core.coq_option(None if t['count'] is None else core.coq_Z(t['count']))
+    start = core.coq_option(None if t['start'] is None else core.coq_N(t['start']))
+    return '(create %s (fun _ => %s) %s %s %s %s)' % (core.coq_N(case['t0']), core.coq_N(nxv), pat, first, count, start)
+
+
+def model_expr(case, log, tbl):
+    ids = name_ids(case)
+    rows = []
+    for k, t in enumerate(case['triggers']):
+        # the value nxt gives for the start time (only used when there is no first time)
+        nxv = 0
+        if t['first'] is None and t['pattern'] and t['pattern'] not in BAD_PATTERNS:
+            nxv = croniter_next(t['pattern'], t['start'] if t['start'] is not None else case['t0'])
+        proj = t['project'] if case['auth'] else 0
+        rows.append('(%s, (%s, %s, %s, %s), %s)' % (core.coq_nat(k), core.coq_nat(ids[t['name']]), core.coq_nat(proj),
+                                                    core.coq_bool(t.get('scope') == 'public'), core.coq_nat(k + 1),
+                                                    coq_create(case, t, nxv)))
+    keys = list(range(len(case['triggers'])))
+    if log['ambiguous']:
+        # the order in which the database enumerates the candidate rows is not specified by SQL: it is observed on
+        # the real get_cron_trigger (rows that win a lookup come first) and handed to the model as `keys`
+        wins = {k: sum(1 for v in log['lookup'].values() if v == k) for k in keys}
+        keys.sort(key=lambda k: (-wins[k], k))
+    ops = []
+    for e in log['steps']:
+        ob = e['obs']
+        if ob[0] == 'tick':
+            ops.append('Tick %s' % core.coq_N(ob[1]))
+        elif ob[0] == 'read':
+            ops.append('Read %s' % core.coq_nat(ob[1]))
+        elif ob[0] == 'adv':
+            ops.append('Adv %s %s' % (core.coq_nat(ob[1]), core.coq_nat(max(ob[2], 0))))
+        elif ob[0] == 'start':
+            ops.append('Start %s' % core.coq_nat(ob[1]))
+        elif ob[0] == 'drop':
+            ops.append('Drop %s' % core.coq_nat(ob[1]))
+        elif ob[0] == 'crash':
+            ops.append('Crash %s' % core.coq_nat(ob[1]))
+        else:
+            ops.append('Tick 0%N')
+    tb = core.coq_list(['(%s, (%s, %s))' % (core.coq_nat(k), core.coq_N(a), core.coq_N(v)) for k, a, v in tbl])
+    return 'run_trace lookup_by_name %s %s %s (mk_rows %s) %s' % (core.coq_list([core.coq_nat(k) for k in keys]), tb, core.coq_N(case['t0']),
+                                                  core.coq_list(rows), core.coq_list(ops)), keys
+
+
+def parse_coq(val):
+    import ast
+    s = core.re.sub(r'%(Z|N|nat)', '', val).replace(';', ',')
+    return ast.literal_eval(s)
+
+
+def impl_trace(case, log, keys):
+    """The real run in the model's observation format."""
+    out = []
+    trig = log['trig']
+    id2k = {v['id']: k for k, v in trig.items()}
+    si = 0
+    for e in log['steps']:
+        ob = e['obs']
+        if ob[0] == 'read':
+            o = [1] + sorted(ob[2])
+        elif ob[0] == 'adv':
+            o = [2, 1 if ob[3] else 0]
+        elif ob[0] == 'start':
+            s = log['starts'][si]
+            si += 1
+            k = id2k.get(s['snap_id'], -1)
+            t = trig.get(k)
+            payload_ok = t is not None and s['wf'] == t['wf'] and s['input'] == t['input'] and s['params'] == t['params'] \
+                and (not case['auth'] or (s['ctx'] or {}).get('trust') == t['trust'])
+            if case['auth']:
+                p = (s['ctx'] or {}).get('project')
+                proj = PROJECTS.index(p) if p in PROJECTS else -1
+            else:
+                proj = 0 if (s['ctx'] or {}).get('is_admin') else -1
+            o = [3, k, s['snap_next'], (k + 1) if payload_ok else 0, proj]
+        else:
+            o = [0]
+        v = []
+        for k in keys:
+            r = e['view'].get(k)
+            v += [0, 0, 0, 0] if r is None else [1, r[0], 0 if r[1] is None else 1, 0 if r[1] is None else r[1]]
+        out.append((o, v))
+    return out
+
+
+def canon_model(tr, keys):
+    out = []
+    for o, v in tr:
+        o = list(o)
+        if o and o[0] == 1:
+            o = [1] + sorted(o[1:])
+        out.append((o, list(v)))
+    return out
+
+
+# ---------------------------------------------------------------------------
+# suites
+
+BAD_PATTERNS = ['bad pattern', '61 * * * *', '* * *']
+
+CORPUS = [
+    # CAS race of three processors on one occurrence, then the last execution (delete) race
+    {'auth': True, 't0': 100000, 'nproc': 3, 'triggers': [
+        {'name': 'a', 'project': 0, 'pattern': '* * * * *', 'first': None, 'count': 2, 'start': None,
+         'input': {'x': 1}, 'params': {'tag': 'p0'}, 'scope': 'private'}],
+     'steps': [['tick', 19], ['run', 0], ['run', 1], ['run', 2], ['run', 1], ['run', 0], ['run', 2], ['run', 1], ['run', 0],
+               ['run', 2], ['tick', 60], ['run', 0], ['run', 1], ['run', 2], ['run', 2], ['run', 1], ['run', 0], ['run', 2],
+               ['run', 0], ['run', 1], ['tick', 60], ['run', 0], ['run', 1]]},
+    # the winner dies between advancing the trigger and starting the workflow; RPC failure on the next one
+    {'auth': True, 't0': 100000, 'nproc': 2, 'triggers': [
+        {'name': 'a', 'project': 1, 'pattern': '*/5 * * * *', 'first': None, 'count': None, 'start': None,
+         'input': {'x': 1}, 'params': {}, 'scope': 'public'}],
+     'steps': [['tick', 200], ['run', 0], ['run', 0], ['crash', 0], ['run', 1], ['run', 0], ['tick', 300], ['run', 1], ['run', 1],
+               ['failstart', 1], ['run', 1], ['run', 0], ['run', 0]]},
+    # long lag: one firing, next time jumps past the clock; due boundary (next < now + 2)
+    {'auth': False, 't0': 100000, 'nproc': 1, 'triggers': [
+        {'name': 'a', 'project': 0, 'pattern': '0 * * * *', 'first': None, 'count': 5, 'start': None,
+         'input': {'x': 1}, 'params': {'tag': 'p0'}, 'scope': 'private'}],
+     'steps': [['tick', 798], ['run', 0], ['tick', 1], ['run', 0], ['run', 0], ['run', 0], ['run', 0], ['tick', 3 * 86400], ['run', 0],
+               ['run', 0], ['run', 0], ['run', 0], ['run', 0]]},
+    # first-execution-time-only trigger; same name in two projects, both private
+    {'auth': True, 't0': 100000, 'nproc': 2, 'triggers': [
+        {'name': 'a', 'project': 0, 'pattern': None, 'first': 100060, 'count': None, 'start': None,
+         'input': {'x': 1}, 'params': {'tag': 'p0'}, 'scope': 'private'},
+        {'name': 'a', 'project': 1, 'pattern': '* * * * *', 'first': 100060, 'count': 1, 'start': None,
+         'input': {'x': 8}, 'params': {'tag': 'p1'}, 'scope': 'private'}],
+     'steps': [['tick', 59], ['run', 0], ['run', 1], ['run', 0], ['run', 1], ['run', 1], ['run', 0], ['run', 0], ['run', 1],
+               ['run', 0], ['run', 1], ['tick', 600], ['run', 0], ['run', 1]]},
+    # FINDING witness: a private trigger and another project's PUBLIC trigger share the name (see C17_*_refuted)
+    {'auth': True, 't0': 100000, 'nproc': 1, 'triggers': [
+        {'name': 'a', 'project': 1, 'pattern': '* * * * *', 'first': None, 'count': None, 'start': None,
+         'input': {'x': 1}, 'params': {'tag': 'p0'}, 'scope': 'private'},
+        {'name': 'a', 'project': 0, 'pattern': '* * * * *', 'first': None, 'count': 1, 'start': None,
+         'input': {'x': 8}, 'params': {'tag': 'p1'}, 'scope': 'public'}],
+     'steps': [['tick', 19], ['run', 0], ['run', 0], ['run', 0], ['run', 0], ['run', 0], ['tick', 60], ['run', 0], ['run', 0],
+               ['run', 0], ['run', 0], ['tick', 60], ['run', 0], ['run', 0], ['run', 0], ['run', 0]]},
+    # FINDING witness 2: the public trigger has count 1 and fires twice (its count is overwritten through the other row)
+    {'auth': True, 't0': 100000, 'nproc': 1, 'triggers': [
+        {'name': 'a', 'project': 1, 'pattern': '* * * * *', 'first': None, 'count': None, 'start': None,
+         'input': {'x': 1}, 'params': {'tag': 'p0'}, 'scope': 'private'},
+        {'name': 'a', 'project': 0, 'pattern': '* * * * *', 'first': None, 'count': 1, 'start': None,
+         'input': {'x': 8}, 'params': {'tag': 'p1'}, 'scope': 'public'}],
+     'steps': [['tick', 19], ['run', 0], ['run', 0], ['run', 0], ['crash', 0], ['tick', 60], ['run', 0], ['run', 0], ['run', 0],
+               ['run', 0], ['run', 0], ['tick', 60], ['run', 0], ['run', 0], ['run', 0], ['run', 0]]},
+]
+
+
+def rest_count_type():
+    from wsme import types as wtypes
+    from mistral.api.controllers.v2 import resources
+    return [a for a in wtypes.list_attributes(resources.CronTrigger) if a.name == 'remaining_executions'][0].datatype
+
+
+def suite_create(ctx):
+    """Exhaustive decision table of creation-time validation (finite: every combination is run)."""
+    Env.boot()
+    m = Env.mods
+    from mistral import exceptions as exc
+    Env.set_auth(False)
+    proj = m['security'].DEFAULT_PROJECT_ID
+    wf_name = Env.wf_ids[proj][0]
+    pats = [None, '', '* * * * *', '*/5 * * * *'] + BAD_PATTERNS
+    counts = [None, -1, 0, 1, 2, 7]
+    cases, exprs = [], []
+    dist = {'ok': 0, 'rejected': 0}
+    ctype = rest_count_type()
+    for c in counts + [3, 100, -5]:
+        try:
+            ctype.validate(c) if c is not None else None
+            impl = True
+        except ValueError:
+            impl = False
+        cases.append(('rest', c, impl))
+        exprs.append('rest_count_ok %s' % core.coq_option(None if c is None else core.coq_Z(c)))
+    for t0 in (100000, 86400 * 31 - 30):
+        firsts = [None, t0 - 10, t0, t0 + 59, t0 + 60, t0 + 61, t0 + 3600, ('str', (t0 // 60 + 3) * 60), ('str', (t0 // 60) * 60),
+                  ('raw', 'garbage')]
+        for pat in pats:
+            for first in firsts:
+                for count in counts:
+                    for start in (None, t0 - 3600):
+                        Env.wipe()
+                        Env.clock = t0
+                        m['auth_ctx'].set_ctx(Env.user_ctx(proj))
+                        if isinstance(first, tuple):
+                            farg = dt(first[1]).strftime('%Y-%m-%d %H:%M') if first[0] == 'str' else first[1]
+                            fsec = first[1] if first[0] == 'str' else None
+                        else:
+                            farg = None if first is None else dt(first)
+                            fsec = first
+                        # validate_cron_trigger_input directly (datetime argument) ...
+                        v_impl = None
+                        if not (isinstance(first, tuple) and first[0] == 'raw'):
+                            try:
+                                m['triggers'].validate_cron_trigger_input(pat, None if fsec is None else dt(fsec), count)
+                                v_impl = 'ok'
+                            except exc.InvalidModelException:
+                                v_impl = 'rejected'
+                            except Exception as e:
+                                v_impl = 'crash:' + type(e).__name__
+                        # ... and the whole create_cron_trigger
+                        try:
+                            trig = m['triggers'].create_cron_trigger('n', wf_name, {'x': 1}, {}, pat, farg, count,
+                                                                     None if start is None else dt(start))
+                            rows = Env.rows()
+                            r = rows[trig.id]
+                            impl = [1, r['next'], 0 if r['rem'] is None else 1, 0 if r['rem'] is None else r['rem']]
+                        except exc.InvalidModelException:
+                            impl = [0]
+                        except Exception as e:
+                            impl = ['crash:' + type(e).__name__]
+                        finally:
+                            m['auth_ctx'].set_ctx(None)
+                        desc = {'t0': t0, 'pattern': pat, 'first': first, 'count': count, 'start': start}
+                        if isinstance(first, tuple) and first[0] == 'raw':
+                            # an unparsable first time must be refused (no model input corresponds to it)
+                            ctx.count('create', repr(desc))
+                            if impl != [0]:
+                                ctx.fail('create-accepts-garbage-first-time', 'create_cron_trigger accepts %r' % (desc,), {'create': desc})
+                            continue
+                        if v_impl is not None and (v_impl == 'ok') != (impl != [0]) or (v_impl or '').startswith('crash'):
+                            ctx.disagree('create', desc, 'validate_cron_trigger_input=%s' % v_impl, impl)
+                        nxv = 0
+                        if fsec is None and pat and pat not in BAD_PATTERNS:
+                            nxv = croniter_next(pat, start if start is not None else t0)
+                        t = {'pattern': pat, 'first': fsec, 'count': count, 'start': start}
+                        exprs.append('match %s with Some (n, r) => (1%%Z :: Z.of_N n :: zrem r) | None => [0%%Z] end'
+                                     % coq_create({'t0': t0}, t, nxv))
+                        cases.append(('create', desc, impl))
+                        dist['ok' if impl != [0] else 'rejected'] += 1
+    Env.wipe()
+    res = core.coq_eval('c17create', IMPORTS, exprs, chunk=200)
+    for c, r in zip(cases, res):
+        ctx.cov['disagreements_checked'] += 1
+        if c[0] == 'rest':
+            ctx.count('create', ('rest', c[1]))
+            if r != core.coq_bool(c[2]):
+                ctx.disagree('create', {'rest_count': c[1]}, r, c[2])
+            # the property's domain: a count given through the REST API is at least 1
+            if c[1] is not None and c[1] < 1 and c[2]:
+                ctx.fail('rest-accepts-count-below-1', 'remaining_executions=%r passes the REST type' % c[1], {'rest_count': c[1]})
+            continue
+        ctx.count('create', repr(c[1]), nontrivial=(c[2] != [0]))
+        model = parse_coq(r)
+        if list(model) != c[2]:
+            ctx.disagree('create', c[1], list(model), c[2])
+        # oracle (property text): a first-execution-time-only trigger is stored to fire exactly once
+        d = c[1]
+        if c[2] != [0] and c[2][0] == 1 and not d['pattern'] and d['first'] is not None and (d['count'] is None or d['count'] >= 1):
+            if c[2][2:] != [1, 1]:
+                ctx.fail('first-only-count', 'first-time-only trigger stored with remaining %r' % (c[2][2:],), {'create': d})
+    ctx.cov['suites']['create']['outcomes'] = dist
+
+
+WORKERS = max(1, min(12, core.NPROC))
+_POOL = [None]
+
+
+def _warm(_):
+    import logging
+    import time
+    logging.disable(logging.CRITICAL)
+    Env.boot()
+    time.sleep(0.5)      # keep this worker busy so that every worker process gets started
+    return True
+
+
+def _work(case):
+    return case, execute(case)
+
+
+def start_pool():
+    """Fork the worker processes (each boots its own in-memory database). Called before this process loads mistral."""
+    if _POOL[0] is None and WORKERS > 1:
+        try:
+            import multiprocessing as mp
+            from concurrent.futures import ProcessPoolExecutor
+            ex = ProcessPoolExecutor(max_workers=WORKERS, mp_context=mp.get_context('fork'))
+            warm = [ex.submit(_warm, i) for i in range(WORKERS)]
+            _POOL[0] = (ex, warm)
+        except Exception:
+            _POOL[0] = None
+
+
+def execute_many(cases):
+    """[(case, log)] in order. Cases are independent (own rng seed each), so the result does not depend on how
+    they are spread over processes; any trouble with the pool falls back to this process."""
+    if len(cases) >= 48 and _POOL[0] is not None:
+        try:
+            ex, warm = _POOL[0]
+            for f in warm:
+                f.result(timeout=300)
+            return list(ex.map(_work, cases, chunksize=max(1, min(16, len(cases) // (WORKERS * 4)))))
+        except Exception:
+            try:
+                _POOL[0][0].shutdown(wait=False, cancel_futures=True)
+            except Exception:
+                pass
+            _POOL[0] = None
+    return [(c, execute(c)) for c in cases]
+
+
+def run_cases(ctx, cases, tag, with_model=True):
+    exprs, metas = [], []
+    dist = {'cases': 0, 'steps': 0, 'starts': 0, 'adv_won': 0, 'adv_lost': 0, 'crash_or_rpc_loss': 0, 'lag_ticks': 0,
+            'nproc': {}, 'deleted_rows': 0, 'ambiguous': 0}
+    for case, log in execute_many(cases):
+        dist['cases'] += 1
+        dist['steps'] += len(log['steps'])
+        dist['starts'] += len(log['starts'])
+        dist['adv_won'] += sum(1 for e in log['steps'] if e['obs'][0] == 'adv' and e['obs'][3])
+        dist['adv_lost'] += sum(1 for e in log['steps'] if e['obs'][0] == 'adv' and not e['obs'][3])
+        dist['crash_or_rpc_loss'] += len(log['lost'])
+        dist['lag_ticks'] += sum(1 for e in log['steps'] if e['obs'][0] == 'tick' and e['obs'][1] >= 3600)
+        dist['nproc'][str(case.get('nproc'))] = dist['nproc'].get(str(case.get('nproc')), 0) + 1
+        dist['deleted_rows'] += sum(1 for k in log['trig'] if log['steps'] and log['steps'][-1]['view'].get(k) is None)
+        dist['ambiguous'] += 1 if log['ambiguous'] else 0
+        for sig, what in oracle(ctx, case, log):
+            ctx.fail(sig, what, {'case': case})
+        ctx.count(tag, json.dumps(case, sort_keys=True), nontrivial=bool(log['starts']), evaluations=len(log['steps']))
+        if with_model:
+            tbl, bad = nxt_table(case, log)
+            if bad:
+                ctx.disagree(tag, {'case': case}, 'assumed: t < nxt t', 'croniter gives %r' % (bad[:3],))
+            e, keys = model_expr(case, log, tbl)
+            exprs.append(e)
+            metas.append((case, log, keys))
+    if with_model and exprs:
+        import time
+        t_coq = time.time()
+        res = core.coq_eval('c17' + tag, IMPORTS, exprs, chunk=max(10, min(100, len(exprs) // core.NPROC + 1)))
+        ctx.cov.setdefault('timing_s', {})['coq_' + tag] = round(time.time() - t_coq, 1)
+        for (case, log, keys), r in zip(metas, res):
+            ctx.cov['disagreements_checked'] += 1
+            ctx.cov['traces_validated_against_impl'] += 1
+            model = canon_model(parse_coq(r), keys)
+            impl = impl_trace(case, log, keys)
+            # creation outcome first (the model's rows come from its own `create`)
+            if len(model) != len(impl):
+                ctx.disagree(tag, {'case': case}, 'trace length %d' % len(model), 'trace length %d' % len(impl))
+                continue
+            for si, (a, b) in enumerate(zip(model, impl)):
+                if (list(a[0]), list(a[1])) != (list(b[0]), list(b[1])):
+                    ctx.disagree(tag, {'case': case, 'step_index': si, 'step': log['steps'][si]['step'], 'keys': keys},
+                                 {'obs': a[0], 'rows': a[1]}, {'obs': b[0], 'rows': b[1]})
+                    break
+    s = ctx.cov['suites'].setdefault(tag, {'evaluations': 0, 'distinct_nontrivial': 0})
+    s['distribution'] = dist
+    if metas:
+        ctx.sample({'suite': tag, 'case': metas[-1][0]})
+
+
+def copy_case(c):
+    return json.loads(json.dumps(c))
+
+
+def run(ctx):
+    ctx.cov['rule'] = ('create: exhaustive table pattern(7) x first time(10) x count(6) x start(2) x clock(2); run: seeded cases of '
+                       '1-3 triggers (pattern/first/count/start/scope/project/name collisions) x 1-3 processors x adaptive '
+                       'schedules of DB steps (ticks to the due boundary, long lags, crashes, RPC failures); distinct = distinct '
+                       'case; non-trivial = at least one workflow start (create: accepted)')
+    import time
+    tm = ctx.cov.setdefault('timing_s', {})
+    t = time.time()
+    start_pool()
+    try:
+        suite_create(ctx)
+        tm['create'] = round(time.time() - t, 1)
+        t = time.time()
+        run_cases(ctx, [copy_case(c) for c in CORPUS], 'run_corpus')
+        run_cases(ctx, [gen_case(ctx.rng) for _ in range(ctx.n(1200, 18000))], 'run')
+        tm['run'] = round(time.time() - t, 1)
+    finally:
+        stop_pool()
+    ctx.assumptions += ['croniter is an oracle: the model gets its values as a table (t < nxt t checked on every table)',
+                        'one database call of the real code (SELECT / conditional UPDATE / DELETE) is atomic',
+                        'processors share nothing but the database (per-processor auth context restored on every switch)']
+
+
+def stop_pool():
+    if _POOL[0] is not None:
+        try:
+            _POOL[0][0].shutdown(wait=False, cancel_futures=True)
+        except Exception:
+            pass
+        _POOL[0] = None
+
+
+def search(ctx):
+    """Widened oracle-only search for a failing input (no model involved)."""
+    run_cases(ctx, [gen_case(ctx.rng) for _ in range(1200)], "search", with_model=False)
+
+
+def replay(obj):
+    import logging
+    logging.disable(logging.CRITICAL)
+    r = obj.get('replay', {})
+    if 'case' not in r:
+        print(json.dumps(obj, indent=1)[:4000])
+        return 1
+    case = copy_case(r['case'])
+    log = execute(case)
+    for e in log['steps']:
+        print('%-18s -> %-40s rows=%s clock=%s' % (e['step'], e['obs'], e['view'], e['clock']))
+    for s in log['starts']:
+        print('start: trigger=%s occurrence=%s input=%s params=%s ctx=%s' % (
+            {v['id']: k for k, v in log['trig'].items()}.get(s['snap_id']), s['snap_next'], s['input'], s['params'], s['ctx']))
+    fails = oracle(None, case, log)
+    for sig, what in fails:
+        print('FAIL %s: %s' % (sig, what))
+    if not fails:
+        print('property holds on this input')
+    return 1 if fails else 0
